@@ -100,6 +100,9 @@ Restart(w) ==
 (* (which is where this operation ends: loaded = gen).                                                                  *)
 RestartReloadFails(w) == [Restart(w) EXCEPT !.store = w.store]
 
+(* A reload of the configuration that leaves the jobs as they are (other metric relabeling rules): the file is generated  *)
+(* again and Prometheus takes it - also what an earlier refused update had left unloaded.                                  *)
+Reconfig(w)   == [w EXCEPT !.loaded = w.gen]
 Tick(w)       == [w EXCEPT !.clock = @ + 1]
 SetHead(w, n) == [w EXCEPT !.promHead = n]
 
